@@ -86,10 +86,108 @@ func verifSigF2(root *vNode) bool {
 	return false
 }
 
+// Finding "static comparison ignores bool": calculateStaticReturn folds `k1 <cmp> k2` to "returns nothing" even
+// when the comparison carries the bool modifier (which returns 0 instead of dropping the sample).
+func verifConstLike(n *vNode) bool {
+	switch n.kind {
+	case 'n', 'v':
+		return true
+	case 's':
+		return false
+	case 'B':
+		return verifConstLike(n.l) && verifConstLike(n.r)
+	}
+	return verifConstLike(n.l)
+}
+
+func verifSigStaticBool(root *vNode) bool {
+	return root.op == vOpCmpBool && verifConstLike(root.l) && verifConstLike(root.r)
+}
+
+// Finding "or with an always-returning left side": parseBinOps marks the right side of `or` dead whenever the left
+// side always returns something, but `or` drops a right-hand series only if its matching signature equals that of a
+// left-hand series; that is certain only for on() with an empty list.
+func verifSigOrLHS(root *vNode) bool {
+	if root.op != vOpOr {
+		return false
+	}
+	if !root.con {
+		return true
+	}
+	for l := 0; l < verifNL; l++ {
+		if root.cml[l] {
+			return true
+		}
+	}
+	return false
+}
+
+// verifMayLack: the result of n may lack label l although every stored series carries every label
+func verifMayLack(n *vNode, l int) bool {
+	switch n.kind {
+	case 's':
+		return false
+	case 'A':
+		switch {
+		case n.aop == vAggTopk:
+			return verifMayLack(n.l, l)
+		case n.aop == vAggCountV && n.cvl == l:
+			return false
+		case n.cwithout:
+			return n.cgrp[l] || verifMayLack(n.l, l)
+		}
+		return !n.cgrp[l] || verifMayLack(n.l, l)
+	case 'F':
+		if n.fn == vFnReplace && n.dst == l {
+			return true
+		}
+		return verifMayLack(n.l, l)
+	}
+	return true
+}
+
+// Finding "on(l) when both sides lack l": before canJoin compares the sides, parseBinOps adds the on(...) labels to
+// the included labels of the side it keeps, so CanHaveLabel(l) is true there by construction; the other side is
+// then reported dead whenever it cannot have l - also when neither side has l, which Prometheus matches (the
+// signature of both is l="").
+func verifSigOnAbsent(root *vNode) bool {
+	if !root.vectorBinary() || !root.con {
+		return false
+	}
+	side := root.l
+	if root.card == vCardRight {
+		side = root.r
+	}
+	for l := 0; l < verifNL; l++ {
+		if root.cml[l] && verifMayLack(side, l) {
+			return true
+		}
+	}
+	return false
+}
+
+const (
+	vSigF2         = "C12-ignoring-group-guaranteed"
+	vSigStaticBool = "C12-static-comparison-ignores-bool"
+	vSigOrLHS      = "C12-or-lhs-always-returns"
+	vSigOnAbsent   = "C12-on-label-absent-on-both-sides"
+)
+
+// signatures are set per claim: kind 0 = folded constant comparison, 1 = canJoin, 2 = right side of `or`
+func verifSetSigs(root *vNode, kind int) {
+	verifSetSig(vSigStaticBool, kind == 0 && verifSigStaticBool(root))
+	verifSetSig(vSigF2, kind == 1 && verifSigF2(root))
+	verifSetSig(vSigOnAbsent, kind == 1 && verifSigOnAbsent(root))
+	verifSetSig(vSigOrLHS, kind == 2 && verifSigOrLHS(root))
+}
+
 // verifDefine names a term of the reference by a fresh solver variable that is asserted equal to it once. The
 // claims of the (many) shapes then only mention the variable, so the solver keeps the reference formula
 // internalised instead of re-reading it for every query. Sound: a definition of a fresh variable constrains nothing.
 func verifDefine(tag string, v bool) bool {
+	if verifNativeOnly() {
+		return v
+	}
 	d := verifBool(tag)
 	verifAssume(d == v)
 	return d
@@ -128,12 +226,12 @@ func (c *vDeadCheck) shape(k int) {
 	if verifNativeOnly() {
 		verifCurrentDesc = verifDescribe(root, c.db)
 	}
-	verifSetSig("C12-ignoring-group-guaranteed", verifSigF2(root))
 	pre := verifAnd(verifIsShape(root), c.ok)
-	claim := func(flag bool, holds bool, msg string) {
+	claim := func(kind int, flag bool, holds bool, msg string) {
 		if flag {
 			c.nflag++
 			verifReachAt(k, "flagged")
+			verifSetSigs(root, kind)
 			verifClaim(k, verifOr(!pre, holds), msg)
 		}
 	}
@@ -151,20 +249,20 @@ func (c *vDeadCheck) shape(k int) {
 		if root.l.isScalar() && !root.r.isScalar() {
 			own = rOwn
 		}
-		claim(src[0].IsDead && !own, c.empty, "constant comparison flagged dead: the expression returns nothing")
+		claim(0, src[0].IsDead && !own, c.empty, "constant comparison flagged dead: the expression returns nothing")
 	case root.op >= vOpAnd:
 		s := src[0]
-		claim(s.IsDead && !lOwn, c.empty, "left side of a set operation flagged dead: the operation returns nothing")
+		claim(3, s.IsDead && !lOwn, c.empty, "left side of a set operation flagged dead: the operation returns nothing")
 		switch root.op {
 		case vOpAnd:
 			j := s.Joins[len(s.Joins)-1].Src
-			claim(j.IsDead && !rOwn, c.empty, "right side of `and` flagged dead: the operation returns nothing")
+			claim(1, j.IsDead && !rOwn, c.empty, "right side of `and` flagged dead: the operation returns nothing")
 		case vOpUnless:
 			j := s.Unless[len(s.Unless)-1].Src
-			claim(j.IsDead && !rOwn, c.unlessSame, "right side of `unless` flagged dead: it removes nothing from the left side")
+			claim(1, j.IsDead && !rOwn, c.unlessSame, "right side of `unless` flagged dead: it removes nothing from the left side")
 		default:
 			j := src[1]
-			claim(j.IsDead && !rOwn, c.orNone, "right side of `or` flagged dead: it adds nothing to the result")
+			claim(2, j.IsDead && !rOwn, c.orNone, "right side of `or` flagged dead: it adds nothing to the result")
 		}
 	default:
 		s := src[0]
@@ -172,9 +270,9 @@ func (c *vDeadCheck) shape(k int) {
 		if root.card == vCardRight {
 			own, other = rOwn, lOwn
 		}
-		claim(s.IsDead && !own, c.empty, "many side of a vector operation flagged dead: the operation returns nothing")
+		claim(0, s.IsDead && !own, c.empty, "many side of a vector operation flagged dead: the operation returns nothing")
 		j := s.Joins[len(s.Joins)-1].Src
-		claim(j.IsDead && !other, c.empty, "joined side of a vector operation flagged dead: the operation returns nothing")
+		claim(1, j.IsDead && !other, c.empty, "joined side of a vector operation flagged dead: the operation returns nothing")
 	}
 }
 
